@@ -432,7 +432,7 @@ def exec_for(ev: Ev, node):
     if isinstance(seq, VRef) and isinstance(st.obj(seq), Obj):
         hook = ev.registry.iter_model(st.obj(seq).cls) if ev.registry else None
         if hook is None:
-            ev.unsupported(node, "iteration over object of class %s" % st.obj(seq).cls)
+            return _protocol_loop(ev, node, seq, mode, enum)
         seq = hook(ev, seq)
     if not (isinstance(seq, VRef) and isinstance(st.obj(seq), ListObj)):
         ev.unsupported(node, "for over %r" % (seq,))
@@ -487,6 +487,68 @@ def exec_for(ev: Ev, node):
             return
     else:
         ev.block(node.orelse)
+
+
+def _protocol_loop(ev, node, seq, mode, enum):
+    """`for x in obj` / `async for x in obj` over an object that is its own iterator (its class derives from
+    Iterator / AsyncIterator, whose __iter__ / __aiter__ return self): every iteration calls obj.__next__() /
+    obj.__anext__() - through that method's contract or stub - and StopIteration / StopAsyncIteration ends the loop.
+    Prove mode: the usual invariant rule; refute mode: unrolled."""
+    from .builtins import call_method
+    st = ev.st
+    if mode != "fwd" or enum:
+        ev.unsupported(node, "reversed()/enumerate() over an iterator object")
+    is_async = isinstance(node, ast.AsyncFor)
+    meth = "__anext__" if is_async else "__next__"
+    stop = "StopAsyncIteration" if is_async else "StopIteration"
+    line = node.lineno
+
+    def advance():
+        try:
+            return call_method(ev, seq, meth, [], {}, node)
+        except PyRaise as r:
+            if r.cls == stop:
+                return None
+            raise
+
+    if st.run.refute:
+        broke = False
+        for _ in range(st.run.unroll):
+            item = advance()
+            if item is None:
+                break
+            ev.assign(node.target, item)
+            try:
+                ev.block(node.body)
+            except _Continue:
+                continue
+            except _Break:
+                broke = True
+                break
+        else:
+            if advance() is not None:
+                raise PathEnd("unroll bound")
+        if not broke:
+            ev.block(node.orelse)
+        return
+    loop_no = _static_ordinal(ev, node)
+    c = ev.frame.root().contract
+    if c is None or loop_no not in (c.invariants or {}):
+        ev.unsupported(node, "loop %d has no invariant in the contract" % loop_no)
+    check_invariants(ev, loop_no, "entry", {}, line)
+    nxt = ast.Expr(value=ast.Call(func=ast.Attribute(value=node.iter, attr=meth, ctx=ast.Load()), args=[], keywords=[]))
+    ast.copy_location(nxt, node)
+    ast.fix_missing_locations(nxt)
+    havoc_for_loop(ev, node.body + [nxt], extra_names=_target_names(node.target), loop_no=loop_no)
+    assume_invariants(ev, loop_no, {})
+    item = advance()
+    if item is None:
+        ev.block(node.orelse)
+        return
+    ev.assign(node.target, item)
+    r = _iteration(ev, node, loop_no, lambda: ev.block(node.body), lambda: None, lambda: {}, line)
+    if r == "break":
+        return
 
 
 def _target_names(t):
